@@ -2,6 +2,8 @@
 
 from __future__ import annotations
 
+import math
+
 import numpy as np
 
 FACES = ("min_x", "max_x", "min_y", "max_y", "min_z", "max_z")
@@ -91,8 +93,32 @@ def random_scene(
     grid=("uniform", "rect"),
     spacing=50e-9,
     wavelength_cells=(8, 16),
+    material_class=None,
 ):
-    """Returns a scene dict for vf.scenes.build plus a 'meta' sub-dict describing what was drawn."""
+    """Returns a scene dict for vf.scenes.build plus a 'meta' sub-dict describing what was drawn.
+
+    material_class (int | None): when given, the material class of the static boxes (permittivity tier, permeability
+    none / same tier / wider tier, conductivities none / same tier / other tier / with scalar or vector magnetic
+    conductivity) is not drawn but taken from the grid of classes admissible under `materials`, `lossy` and
+    `magnetic`, at index material_class modulo the grid size -- callers pass a running index so that every class is
+    driven in every tier."""
+    forced = None
+    if material_class is not None:
+        tiers = {"any": ["iso", "diag", "full"], "any_lossless": ["iso", "diag", "full"]}.get(materials, [materials])
+        tiers = [t for t in tiers if t != "none"]
+        if lossy:
+            tiers = [t for t in tiers if t != "full"] or ["diag"]
+        mus = ["none"] if magnetic is False else ["none", "same", "wider"]
+        losses = ["e_same", "e_other", "e_same+m_scalar", "e_other+m_vector"] if lossy else ["none"]
+        if magnetic is False:
+            losses = [l for l in losses if "m_" not in l]
+        if tiers:
+            # mixed-radix walk in which every pair of coordinates is covered within a few consecutive indices
+            k, nt, nl, nm = int(material_class), len(tiers), len(losses), len(mus)
+            mi = (k % nm) if math.gcd(nm, nt) == 1 else ((k + k // nt) % nm)
+            forced = (tiers[k % nt], mus[mi], losses[(k // nt) % nl])
+            if forced[1] != "none" or "m_" in forced[2]:
+                magnetic = True
     faces = {}
     meta = {"axis_kinds": [], "pml_faces": [], "source_kinds": [], "switch_kinds": [], "profile_kinds": [], "detector_kinds": []}
     pml_t = {f: 0 for f in FACES}
@@ -210,7 +236,10 @@ def random_scene(
     has_plane = any(k in ("uniform", "gaussian") for k in kinds)
     # material tier
     tier = materials
-    if tier == "any":
+    if forced is not None:
+        tier = forced[0]
+        meta["material_class"] = "/".join(forced)
+    elif tier == "any":
         tier = ["none", "iso", "diag", "full"][int(rng.integers(4))]
     elif tier == "any_lossless":
         tier = ["none", "iso", "diag", "full"][int(rng.integers(4))]
@@ -240,12 +269,16 @@ def random_scene(
                 mat = {"eps": [float(x) for x in rng.uniform(1.5, 5.0, size=3)]}
             else:
                 mat = {"eps": spd_tensor(rng)}
-            if meta["magnetic"] and rng.random() < 0.7:
+            if forced is not None:
+                use_mu, wider = forced[1] != "none", forced[1] == "wider"
+            else:
+                use_mu, wider = bool(meta["magnetic"] and rng.random() < 0.7), None
+            if use_mu:
                 if tier == "full":
                     mat["mu"] = spd_tensor(rng, 1.0, 2.0, 2.0)
                 elif tier == "diag":
                     mat["mu"] = [float(x) for x in rng.uniform(1.0, 2.5, size=3)]
-                elif "tfsf" not in kinds and rng.random() < 0.4:
+                elif "tfsf" not in kinds and (wider if wider is not None else rng.random() < 0.4):
                     # anisotropic permeability on top of an isotropic permittivity (tiers are independent)
                     mat["mu"] = [float(x) for x in rng.uniform(1.0, 2.5, size=3)]
                     meta["mu_tier_wider_than_eps"] = True
@@ -258,13 +291,17 @@ def random_scene(
                 # the conductivity tiers are independent of the permittivity tier: one-component conductivity on a
                 # three-component permittivity and the reverse both occur (never with a TFSF source in the scene)
                 vec_e = tier == "diag"
-                if "tfsf" not in kinds and rng.random() < 0.35:
+                if forced is not None:
+                    flip, use_sm, vec_m = forced[2].startswith("e_other"), "m_" in forced[2], "m_vector" in forced[2]
+                else:
+                    flip, use_sm, vec_m = rng.random() < 0.35, None, None
+                if "tfsf" not in kinds and flip:
                     vec_e = not vec_e
                     meta["sigma_e_tier_differs_from_eps"] = True
                 mat["sig_e"] = [s * float(x) for x in rng.uniform(0.2, 1.0, size=3)] if vec_e else s
-                if meta["magnetic"] and rng.random() < 0.5:
+                if use_sm if use_sm is not None else (meta["magnetic"] and rng.random() < 0.5):
                     sm = float(rng.uniform(0.0, 1.0)) * 5e9 * (50e-9 / spacing)
-                    if "tfsf" not in kinds and rng.random() < 0.35:
+                    if "tfsf" not in kinds and (vec_m if vec_m is not None else rng.random() < 0.35):
                         mat["sig_m"] = [sm * float(x) for x in rng.uniform(0.2, 1.0, size=3)]
                         meta["sigma_m_vector"] = True
                     else:
